@@ -5,18 +5,28 @@ from .. import rules_inter as RI
 LEVEL = "proof"
 
 EXPLANATION = (
-    "Structural analysis of ask_interactively: decision tables of the version switches (constants module, Not Defined "
-    "token for an empty answer, prefix) over the four supported versions; the outer loop asks all metric keys or the "
-    "mandatory list; the inner `while True` loop has a single exit, a break right after the only append, both dominated "
-    "by the legality test of the normalised answer in the metric's value table; table agreement between the builder's "
-    "value sets and the parser's; every legal value is in the image of the answer normaliser (typestate 'case-normalised "
-    "string') and the appended text is the table's spelling."
+    "Abstract interpretation of ask_interactively for every supported version argument (2, 3, 3.0, 3.1, 4, 4.0, and an "
+    "unsupported one) and both values of all_metrics, with every read of the user's answer replaced by a fresh symbol "
+    "ranging over a finite set of representative answers (every legal value of the version in five letter-case and three "
+    "padding variants, doubled, truncated and suffixed forms, the empty string, blanks and junk). The retry loop is "
+    "summarised by one symbolic iteration: paths that ask again must leave every object unchanged and a probe iteration "
+    "must not read anything a rejected iteration bound; the break / return paths give, per metric, the set of accepted "
+    "answers and the text appended. The returned value is a concatenation of constants and per-answer tables; its "
+    "canonical form is compared with the specification's (prefix of the version, one field per asked metric, accepted "
+    "answers = case-insensitive legal values and the empty answer where Not Defined is legal, appended text = the "
+    "specification's spelling). No call-graph cycle is reachable from the builder (re-asking is iteration). The idiom "
+    "rules of the earlier structural analysis are kept as an informational cross-check and decide only if the builder "
+    "cannot be interpreted."
 )
 
 
 def run(ctx):
     led = ctx.ledger
     led.explanation = EXPLANATION
-    led.assumptions = ["str.strip/upper/lower semantics", "the parser accepts table-spelled values (C04.tables)"]
+    led.assumptions = [
+        "str.strip/upper/lower semantics",
+        "answers outside the representative set behave like one of its members (decision on representatives, not a proof over all strings)",
+        "whitespace-padded answers may be accepted (as their stripped form) or rejected: the property does not say",
+    ]
     n = RI.check_c16(ctx, led) or 0
-    led.require_min("C16.reach", n, 150, "legal values examined for reachability")
+    led.require_min("C16.semantic", n, 5000, "(metric, representative answer) pairs decided")
